@@ -5,7 +5,7 @@
 From Coq Require Import List ZArith NArith Bool.
 Import ListNotations.
 From DD Require Import Base.PyStr Base.Value Pickle.Vm Pickle.Codec Pickle.PickleProofs Pickle.CodecProofs Pickle.JsonProofs
-  Pickle.Encodes Pickle.EncodesProofs Path.PathModel Delta.DeltaModel Pickle.DeltaCodec Pickle.DeltaCodecProofs.
+  Pickle.Encodes Pickle.EncodesProofs Path.PathModel Delta.DeltaModel Pickle.DeltaCodec Pickle.DeltaCodecProofs Pickle.JsonDeltaProofs.
 
 (* pickle_load(dump of d) = d for EVERY well-formed payload d (any nesting, every
    category's vocabulary: values, type objects, NoneType, sets, frozensets, tuples,
@@ -95,3 +95,32 @@ Print Assumptions C14_json_nonetype_refuted.
 Theorem C14_json_roundtrip_partial : forall d : pv, json_ok d = true -> json_roundtrip d = Some d.
 Proof. exact json_roundtrip_partial. Qed.
 Print Assumptions C14_json_roundtrip_partial.
+
+(* JSON and set items.  json_dumps writes the sets of set_item_added / set_item_removed as arrays and
+   nothing turns them back: the reloaded payload is [setlist d] - d with exactly those sets replaced
+   by the lists of their members (in the set's iteration order), everything else equal - and a second
+   trip changes nothing more.  _partial: only for payloads whose [setlist] lies in the JSON fragment
+   json_ok (string keys, None/bool/int/float/str, lists, builtin classes under old_type/new_type,
+   Opcode records; no tuples, bytes, frozensets as values, NoneType) *)
+Theorem C14_json_set_items_roundtrip_partial : forall d : pv, json_ok (setlist d) = true ->
+  json_roundtrip d = Some (setlist d) /\ json_roundtrip (setlist d) = Some (setlist d).
+Proof. exact json_roundtrip_sets. Qed.
+Print Assumptions C14_json_set_items_roundtrip_partial.
+
+(* for the Delta application model the payload with lists is the same delta (unconditionally) ... *)
+Theorem C14_setlist_same_delta : forall (b : bool) (p : pv), delta_of_pv b (setlist p) = delta_of_pv b p.
+Proof. exact delta_of_pv_setlist. Qed.
+Print Assumptions C14_setlist_same_delta.
+
+(* ... so the JSON-persisted delta gives the same result (value and error count) on EVERY base, for +
+   and for the bidirectional -, and so does the delta persisted a second time.  _partial: same
+   fragment as above, ordered-mode categories (delta_of_pv) *)
+Theorem C14_json_reloaded_same_result_partial :
+  forall conv rem_order add_order (b : bool) (p : pv) (d : delta),
+  json_ok (setlist p) = true -> delta_of_pv b p = Some d ->
+  exists p', json_roundtrip p = Some p' /\ p' = setlist p /\ json_roundtrip p' = Some p' /\
+    exists d', delta_of_pv b p' = Some d' /\
+      (forall base, apply conv rem_order add_order d' base = apply conv rem_order add_order d base) /\
+      (forall base, sub conv rem_order add_order d' base = sub conv rem_order add_order d base).
+Proof. exact json_reloaded_same_result. Qed.
+Print Assumptions C14_json_reloaded_same_result_partial.
